@@ -227,6 +227,7 @@ func runC12(r *mon.Run) {
 		jr := rand.New(rand.NewPCG(eseeds[i], 120))
 		c12Edges(x, jr, i)
 		c12Transplants(x, jr, i)
+		c12WeakFiatShamir(x, jr, i)
 	})
 	r.FloorAccept("box-true", 500)
 	r.FloorFam("box-false-lib", 500)
@@ -235,6 +236,7 @@ func runC12(r *mon.Run) {
 	r.FloorFam("edge-api", 20)
 	r.FloorFam("trapdoor-sqrt", 8)
 	r.FloorFam("degenerate-commitments", 8)
+	r.FloorFam("weak-fiat-shamir", 8)
 	r.FloorFam("edge-ref", 20)
 	r.FloorFam("transplant", 50)
 	r.FloorFam("alter", 100)
@@ -364,6 +366,122 @@ func (x *c12ctx) ownResponse(cred *world.Cred, desc string, sign int, a uint, k 
 			continue
 		}
 		x.verifyAndJudge("box-false-ref", fmt.Sprintf("%s range proof about a foreign value, own m response sent as member %q", desc, name), &rt, cred, ctx, nonce, false)
+	}
+}
+
+// c12WeakFiatShamir: the statement of a range proof (k, sign, a, l_d) and its commitments C_i are not part of what the
+// challenge is computed over - only the reconstructed Schnorr commitments are. A prover can therefore fix those commitments
+// (T_m = R^-r_m, T_i = R^X_i S^y_i with large random X_0, X_1), learn c, and only then choose C_i = R^d_i S^v_i and k: the
+// verifier's reconstruction gives back the T values as soon as c*(k - m + sum d_i^2) + sum d_i X_i = 0, i.e. for a short
+// lattice vector (d_0, d_1) with X_0 d_0 + X_1 d_1 = 0 (mod c) and k = m + W/c - |d|^2, W = -(X_0 d_0 + X_1 d_1) > 0.
+// The result is an accepted proof of m >= k with k > m. (Construction found by an independent sub-agent; see DESIGN 9.2.)
+func c12WeakFiatShamir(x *c12ctx, jr *rand.Rand, idx int) {
+	r := x.r
+	pk := x.key.PK
+	m := bi(int64(5 + jr.IntN(10_000_000)))
+	cred, err := x.key.SignCred([]*big.Int{randBig(jr, 250), bi(4242), m})
+	if err != nil {
+		return
+	}
+	ctx, nonce := freshNonces(jr)
+	R, S, N := pk.R[2], pk.S, pk.N
+	for attempt := 0; attempt < 8; attempt++ {
+		dis, hid := hiddenOf(cred, []int{1})
+		p := refimpl.NewDProver(pk, cred.C.Signature, dis, hid)
+		rm := p.R[2]
+		X := []*big.Int{refimpl.RandBits(pk.Params.Lh + 138), refimpl.RandBits(pk.Params.Lh + 138), bi(0), bi(0)}
+		y := make([]*big.Int, 4)
+		extra := []*big.Int{refimpl.PowSigned(R, new(big.Int).Neg(rm), N)}
+		for i := range X {
+			y[i] = refimpl.RandBits(200)
+			t := new(big.Int).Exp(R, X[i], N)
+			extra = append(extra, t.Mul(t, new(big.Int).Exp(S, y[i], N)).Mod(t, N))
+		}
+		p.Extra = extra
+		c := refimpl.Challenge(ctx, nonce, p.Commit(), false)
+		dd := p.Respond(c)
+		// Lagrange-Gauss reduction of the lattice {(a,b): X0 a + X1 b = 0 mod c}, basis (c,0), (h,1) with h = -X1/X0 mod c
+		x0inv := new(big.Int).ModInverse(new(big.Int).Mod(X[0], c), c)
+		if x0inv == nil {
+			continue
+		}
+		h := new(big.Int).Mod(new(big.Int).Neg(mul(X[1], x0inv)), c)
+		u, v := [2]*big.Int{cp(c), bi(0)}, [2]*big.Int{h, bi(1)}
+		norm := func(a [2]*big.Int) *big.Int { return add(mul(a[0], a[0]), mul(a[1], a[1])) }
+		dot := func(a, b [2]*big.Int) *big.Int { return add(mul(a[0], b[0]), mul(a[1], b[1])) }
+		for it := 0; it < 2000; it++ {
+			if norm(u).Cmp(norm(v)) < 0 {
+				u, v = v, u
+			}
+			nv := norm(v)
+			if nv.Sign() == 0 {
+				break
+			}
+			q := new(big.Int).Div(add(new(big.Int).Lsh(dot(u, v), 1), nv), new(big.Int).Lsh(nv, 1))
+			if q.Sign() == 0 {
+				break
+			}
+			u[0], u[1] = sub(u[0], mul(q, v[0])), sub(u[1], mul(q, v[1]))
+		}
+		d := v
+		if norm(u).Sign() != 0 && norm(u).Cmp(norm(v)) < 0 {
+			d = u
+		}
+		W := add(mul(X[0], d[0]), mul(X[1], d[1]))
+		if W.Sign() > 0 {
+			d[0], d[1] = new(big.Int).Neg(d[0]), new(big.Int).Neg(d[1])
+			W.Neg(W)
+		}
+		W.Neg(W)
+		if W.Sign() <= 0 || new(big.Int).Mod(W, c).Sign() != 0 {
+			continue
+		}
+		kappa := sub(new(big.Int).Div(W, c), norm(d))
+		if kappa.Sign() <= 0 {
+			continue
+		}
+		K := add(m, kappa)
+		ds := []*big.Int{d[0], d[1], bi(0), bi(0)}
+		rp := &rangeproof.Proof{Ld: 256, Sign: 1, A: 1, K: K, V5Response: bi(0)}
+		okSizes := true
+		for i := 0; i < 4; i++ {
+			vi := bi(int64(i + 1))
+			ci := mul(refimpl.PowSigned(R, ds[i], N), new(big.Int).Exp(S, vi, N))
+			ci.Mod(ci, N)
+			dr := add(X[i], mul(c, ds[i]))
+			if dr.Sign() < 0 {
+				okSizes = false
+			}
+			rp.Cs = append(rp.Cs, ci)
+			rp.DResponses = append(rp.DResponses, dr)
+			rp.VResponses = append(rp.VResponses, add(y[i], mul(c, vi)))
+			rp.V5Response.Add(rp.V5Response, mul(vi, dr))
+		}
+		if !okSizes {
+			continue
+		}
+		dd.RangeProofs = map[int][]*rangeproof.Proof{2: {rp}}
+		recv, err := jsonRoundTripList(gabi.ProofList{dd})
+		if err != nil {
+			continue
+		}
+		desc := fmt.Sprintf("m=%s, statement and C_i chosen after the challenge: claims m >= m+%s (k has %d bits)", m.String(), shortInt(kappa), K.BitLen())
+		r.Distinct("weak-fiat-shamir", idx, attempt)
+		ok, pv, _ := verifyList(recv, []*gabikeys.PublicKey{pk}, ctx, nonce, false, nil)
+		r.Eval("weak-fiat-shamir", outcome(ok, pv))
+		if ok {
+			got := recv[0].(*gabi.ProofD).RangeProofs[2][0]
+			typ, factor, bound := got.ProvenStatement()
+			sign := 1
+			if typ == rangeproof.LesserOrEqual {
+				sign = -1
+			}
+			if !stTrue(sign, factor, bound, m) {
+				r.Violation("C12/false-statement-proven/weak-fiat-shamir", fmt.Sprintf("accepted range proof reports %d*m >= %s for signed m=%s: the bound and the commitments C_i were chosen after the challenge, which does not cover them (%s)", factor, shortInt(bound), m.String(), desc),
+					map[string]any{"case": desc, "proof": dumpD(dd), "cred": dumpCred(cred), "context": dumpInt(ctx), "nonce": dumpInt(nonce)})
+			}
+		}
+		return
 	}
 }
 
